@@ -140,8 +140,11 @@ def static_row(O):
 @obligation("C15/no-shared-state", desc="iterators only borrow the test immutably and TestCase has no interior mutability: all "
             "run state lives in the iterator (signature- and type-level facts read from the MIR and the struct definitions)")
 def no_shared_state(O):
+    no_shared_state_core(O, rep())
+
+
+def no_shared_state_core(O, R):
     m = O.mir
-    R = rep()
     bad = []
     for suffix in ("::try_new", "::try_iter", "::try_iter_static"):
         try:
